@@ -59,3 +59,57 @@ void h_th_add(void){ LOCALS; u32 db[CELLS]; in_data(db, MAXE*MAXE);
   int r = k_th_add(shape, data, db, out, os, GEOM);
   ASSERT(r != 1 || (os[0] == n0 && os[1] == n1), "output shape == view shape");
   step_ok(r, out, out0, g, size, data[g < size ? g : 0] + db[g < size ? g : 0]); REACHED(); }
+/* depth 2 / 3 over one leaf */
+static u32 ref_flip_transpose(const u32* data, const u32* p, i32 ax, const u64* shape, u64 g){
+  u64 e0 = shape[p[0]], e1 = shape[p[1]], i = g / e1, j = g % e1, src[2];
+  if (norm(ax, 2) == 0) i = e0 - 1 - i; else j = e1 - 1 - j;
+  src[p[0]] = i; src[p[1]] = j; return data[src[0]*shape[1] + src[1]]; }
+void h_th_flip_transpose(void){ LOCALS; u32 p[3]; i32 a = in_i32(0, 1), ax = in_i32(-2, 1); p[0] = (u32)a; p[1] = (u32)(1 - a); p[2] = (u32)ax;
+  int r = k_th_flip_transpose(shape, data, p, out, os, GEOM);
+  ASSERT(r != 1 || (os[0] == shape[p[0]] && os[1] == shape[p[1]]), "output shape == view shape");
+  step_ok(r, out, out0, g, size, ref_flip_transpose(data, p, ax, shape, g < size ? g : 0)); REACHED(); }
+void h_th_invert_flip(void){ LOCALS; u32 p[1]; i32 ax = in_i32(-2, 1); p[0] = (u32)ax; u64 an = norm(ax, 2);
+  int r = k_th_invert_flip(shape, data, p, out, os, GEOM);
+  u64 i = (g < size ? g : 0) / n1, j = (g < size ? g : 0) % n1; if (an == 0) i = n0 - 1 - i; else j = n1 - 1 - j;
+  ASSERT(r != 1 || (os[0] == n0 && os[1] == n1), "output shape == view shape");
+  step_ok(r, out, out0, g, size, ~data[i*n1 + j]); REACHED(); }
+void h_th_invert_flip_transpose(void){ LOCALS; u32 p[3]; i32 a = in_i32(0, 1), ax = in_i32(-2, 1); p[0] = (u32)a; p[1] = (u32)(1 - a); p[2] = (u32)ax;
+  int r = k_th_invert_flip_transpose(shape, data, p, out, os, GEOM);
+  ASSERT(r != 1 || (os[0] == shape[p[0]] && os[1] == shape[p[1]]), "output shape == view shape");
+  step_ok(r, out, out0, g, size, ~ref_flip_transpose(data, p, ax, shape, g < size ? g : 0)); REACHED(); }
+/* reduction: the output has shape[1-axis] elements, so most threads are beyond the output */
+void h_th_sum(void){ LOCALS; u32 p[1]; i32 ax = in_i32(-2, 1); p[0] = (u32)ax; u64 an = norm(ax, 2), osize = an == 0 ? n1 : n0, gg = g < osize ? g : 0;
+  int r = k_th_sum(shape, data, p, out, os, GEOM);
+  u32 acc = 0; for (u64 k = 0; k < MAXE; k++) if (k < shape[an]) acc += an == 0 ? data[k*n1 + gg] : data[gg*n1 + k];
+  ASSERT(r != 1 || os[0] == osize, "output shape == view shape");
+  step_ok(r, out, out0, g, osize, acc); REACHED(); }
+/* CUDA-faithful operand kind (device_array with static_vector<size_t,8> shape, out_static_dim 0) */
+void h_thd_transpose(void){ LOCALS; u32 ax[2]; i32 a = in_i32(0, 1); ax[0] = (u32)a; ax[1] = (u32)(1 - a);
+  int r = k_thd_transpose(shape, data, ax, out, os, GEOM);
+  u64 e0 = shape[ax[0]], e1 = shape[ax[1]], i = (g < size ? g : 0) / e1, j = (g < size ? g : 0) % e1, src[2]; src[ax[0]] = i; src[ax[1]] = j;
+  ASSERT(r != 1 || (os[0] == e0 && os[1] == e1), "output shape == view shape");
+  step_ok(r, out, out0, g, size, data[src[0]*n1 + src[1]]); REACHED(); }
+void h_thd_add(void){ LOCALS; u32 db[CELLS]; in_data(db, MAXE*MAXE);
+  int r = k_thd_add(shape, data, db, out, os, GEOM);
+  ASSERT(r != 1 || (os[0] == n0 && os[1] == n1), "output shape == view shape");
+  step_ok(r, out, out0, g, size, data[g < size ? g : 0] + db[g < size ? g : 0]); REACHED(); }
+/* launch-size arithmetic (TRANSCRIBED expression, see the kernel): thread_size = size_t(ceil(float(n)/local))*local.
+ * CUDA/HIP launch <<<thread_size, 32>>> (thread_size BLOCKS of 32 threads): 32*thread_size threads.
+ * SYCL nd_range<1>(thread_size, 32) and OpenCL global_size = thread_size: thread_size work items in total, so thread_size >= n is needed. */
+#ifndef MAXN
+#define MAXN 0x7fffffffull
+#endif
+void h_launch_size(void){
+  u64 n = in_u64(1, MAXN); u32 local = in_u32(1, 1024);
+#ifdef LOCAL
+  ASSUME(local == LOCAL);
+#endif
+#ifdef KF_C13_LAUNCH_SIZE_FLOAT
+  ASSUME(!(n > 16777216));        /* beyond 2^24 float(n) is not exact */
+#endif
+  u64 t = k_launch_thread_size(n, local);
+  ASSERT(t % local == 0, "a whole number of work groups");
+  ASSERT(t * 32 >= n, "CUDA/HIP: 32*thread_size threads cover the output");
+  ASSERT(t >= n, "SYCL/OpenCL: thread_size work items cover the output");
+  ASSERT(t < n + local, "not more than one partial group over-provisioned");
+  OBS(t); REACHED(); }
